@@ -3,10 +3,12 @@
 //! usage: verif-harness <domain> [key=value ...]
 
 mod codec;
+mod hyb;
 mod infl;
 mod mem;
 mod memc;
 mod rng;
+mod sim;
 mod tomb;
 
 use std::collections::BTreeMap;
@@ -72,6 +74,7 @@ fn main() {
         "infl" => infl::main(&args),
         "codec" => codec::main(&args),
         "tomb" => tomb::main(&args),
+        "hyb" => hyb::main(&args),
         _ => {
             eprintln!("unknown domain {domain:?}");
             2
